@@ -25,7 +25,7 @@ ASSUMPTIONS = [
 ]
 
 DEFAULT = {"http": 80, "https": 443, "ws": 80, "wss": 443}
-SERVERS = [("h", "d"), ("h", 8000), ("h", 80), ("h", 443), ("svc.internal", 443), ("svc.internal", 80), ("example.org", "d"), ("10.0.0.1", "d"), ("10.0.0.1", 81), ("::1", "d"), ("::1", 8000), ("2001:db8::7", 8443)]
+SERVERS = [("h", "d"), ("h", 8000), ("h", 80), ("h", 443), ("svc.internal", 443), ("svc.internal", 80), ("example.org", "d"), ("10.0.0.1", "d"), ("10.0.0.1", 81), ("::1", "d"), ("::1", 8000), ("2001:db8::7", 8443), ("h", "none"), ("::1", "none")]
 HOSTS = [None, "example.com", "example.com:80", "example.com:8080", "[::1]", "[::1]:8000", "EXAMPLE.com", "a.b:443"]
 ROOTS = ["", "/r", "/r/é"]
 PATHS = ["/", "/r", "/r/x", "/r/é/y", "/a", "/a/b", "/é", "/a b", "/a;b", "/a:b@c", "/~x", "", "/a//b", "//x", "/%41", "/a&b=c", "/a+b", "/中/文", "/a'(b)*!$,"]
@@ -35,13 +35,15 @@ QUERIES = ["", "a=1", "a=1&b=%20", "é=1", "a=b=c", "?", "a=1?b", "x", "a=&b", "
 
 def request_url(iface, scheme, server, host, root, path, query):
     from baize import asgi, wsgi
-    port = DEFAULT[scheme] if server[1] == "d" else server[1]
+    port = DEFAULT[scheme] if server[1] in ("d", "none") else server[1]  # "none": ASGI allows a server address without a port (WSGI cannot say that)
     req = drivers.Req(path=path.encode("utf-8"), root=root.encode("utf-8"), query=query.encode("utf-8"),
                       headers=[("Host", host)] if host is not None else [], scheme=scheme, server=(server[0], port))
     if iface == "wsgi":
         return wsgi.Request(drivers.to_environ(req)).url
     sc = drivers.to_scope(req)
     sc["scheme"] = scheme
+    if server[1] == "none":
+        sc["server"] = (server[0], None)
     return asgi.Request(sc).url
 
 
@@ -112,7 +114,7 @@ def expected_netloc(scheme, server, host):
         h = server[0]
         if ":" in h:
             h = f"[{h}]"
-        hp = h if (server[1] == "d" or server[1] == DEFAULT[scheme]) else f"{h}:{server[1]}"  # default ports are elided
+        hp = h if (server[1] in ("d", "none") or server[1] == DEFAULT[scheme]) else f"{h}:{server[1]}"  # default ports are elided
     s = urlsplit("x://" + hp)
     return s.hostname, s.port
 
@@ -143,7 +145,7 @@ def check_request_url(ctx, scheme, server, host, root, path, query, odd=False):
             if host is not None:
                 nl = host
             else:
-                nl = (f"[{server[0]}]" if ":" in server[0] else server[0]) + ("" if server[1] in ("d", DEFAULT[scheme]) else f":{server[1]}")
+                nl = (f"[{server[0]}]" if ":" in server[0] else server[0]) + ("" if server[1] in ("d", "none", DEFAULT[scheme]) else f":{server[1]}")
             ps = urlsplit(f"{scheme}://{nl}{root}{path}" + (f"?{query}" if query else ""))
             pasted = {"scheme": ps.scheme, "hostname": ps.hostname, "port": ps.port, "path": ps.path, "query": ps.query}
             if odd and got != pasted:
@@ -188,13 +190,25 @@ def build(scheme, user, host, port, path, query, frag):
 
 
 def comp(u):
+    """the components as an independent parser reads them from the URL text; the object's own accessors must say the same"""
     s = urlsplit(str(u))
     try:
         port = s.port
     except ValueError as e:
         port = ("unreadable", str(e))
-    return dict(scheme=s.scheme, path=s.path, query=s.query, fragment=s.fragment, username=s.username, password=s.password,
-                hostname=s.hostname, port=port)
+    d = dict(scheme=s.scheme, path=s.path, query=s.query, fragment=s.fragment, username=s.username, password=s.password,
+             hostname=s.hostname, port=port)
+    if not isinstance(u, str):
+        for k, v in d.items():
+            try:
+                own = getattr(u, k)
+            except ValueError as e:
+                own = ("unreadable", str(e))
+            if own != v:
+                d[k] = ("accessor-disagrees-with-text", own, v)
+        if u != str(u) or not (u == type(u)(str(u))):
+            d["scheme"] = ("url-not-equal-to-its-own-text", str(u))
+    return d
 
 
 def check_replace(ctx, base, kw):
